@@ -48,6 +48,7 @@ def run(ck, fb):
     r18k(ck, fb)
     r18l(ck, fb)
     r18m(ck, fb)
+    r18n(ck, fb)
 
 
 def find_generic(fb, suffix):
@@ -733,3 +734,32 @@ def r18m(ck, fb, R='R18m'):
                        'the decoded privilege of a stored user %s: update_user writes the decoded lists back, so a partial update erases the stored %s '
                        '(whitelistIsAll, blacklist [ns-secret]; set blacklistIsAll, then clear it without resending the list: the user is let into ns-secret)'
                        % ('can carry None for %s' % fld if not some else 'does not take its list from %s' % fld, fld), 'Some(list) from %s' % fld)
+
+
+def r18n(ck, fb, R='R18n'):
+    ck.rule(R, 'a restriction survives the wire: PrivilegeGroup travels as JSON (the subscriber query forwarded to another node, a session stored in '
+               'the cache table) and its Default is PrivilegeGroup::all() - permit everything. So its derived Serialize writes every field '
+               'unconditionally (as many serialize_field calls as the struct has fields, no skip_field) and its derived Deserialize takes nothing '
+               'from Default (the map visitor reports a missing key through missing_field and never calls <PrivilegeGroup as Default>::default). '
+               'With "compact JSON" (skip false flags, container default) a whitelist-restricted group reads back with whitelist_is_all = true')
+    PG = 'rnacos::common::model::privilege::PrivilegeGroup<T>'
+    adt = fb.adts.get('rnacos::common::model::privilege::PrivilegeGroup')
+    nf = len(adt['variants'][0]['fields']) if adt and adt.get('variants') else 0
+    ck.floor(R, 'fields of PrivilegeGroup', nf, 5)
+    ser = [b for n, b in fb.bodies.items() if n.endswith('_serde::Serialize for %s>::serialize' % PG) and not b.parent]
+    ck.floor(R, 'derived Serialize body of PrivilegeGroup', len(ser), 1)
+    for b in ser:
+        ck.analysed(b)
+        w = len(b.calls(r'serialize_field$'))
+        sk = len(b.calls(r'skip_field$'))
+        ck.require(w == nf and sk == 0, R, 'PrivilegeGroup:serialize-every-field', b.where(),
+                   'the serialised PrivilegeGroup leaves fields out (%d of %d written, %d conditional skips): the reader fills them from a default - '
+                   'the flags of a restriction are false, and an omitted false reads back as whatever the default says' % (w, nf, sk), '%d fields written' % w)
+    de = [b for n, b in fb.bodies.items() if ('_serde::Deserialize<\'de> for %s>::deserialize' % PG) in n]
+    ck.floor(R, 'derived Deserialize bodies of PrivilegeGroup', len(de), 3)
+    miss = sum(len(b.calls(r'missing_field$')) for b in de)
+    dflt = [s0 for b in de for s0 in b.sites if re.search(r'Default>::default$|PrivilegeGroup::<.*>::all$|PrivilegeGroup<T>>::default', s0.resolved or s0.callee or '')]
+    ck.require(miss >= 1 and not dflt, R, 'PrivilegeGroup:deserialize-invents-nothing', de[0].where() if de else '-',
+               'a PrivilegeGroup read from JSON takes missing keys from a default (%d missing_field reports, %d default calls): Default for PrivilegeGroup '
+               'is all() - a user whose whitelist is [dev] is allowed namespace prod once the group has crossed the wire' % (miss, len(dflt)),
+               'missing keys are errors / None')
